@@ -5,7 +5,7 @@ use bytes::Bytes;
 use sip_core::transaction::TsxResponse;
 use sip_core::transport::TargetTransportInfo;
 use sip_core::{Endpoint, LayerKey, Request};
-use sip_types::header::typed::{CSeq, CallID, Contact, FromTo, MaxForwards};
+use sip_types::header::typed::{CSeq, CallID, Contact, FromTo, MaxForwards, Routing};
 use sip_types::header::HeaderError;
 use sip_types::msg::RequestLine;
 use sip_types::uri::{NameAddr, Uri};
@@ -82,6 +82,10 @@ impl ClientDialogBuilder {
         ));
         assert!(response.base_headers.to.tag.is_some());
 
+        // The route set of the UAC is the list of Record-Route values in reverse order (RFC 3261 12.1.2)
+        let mut route_set: Vec<Routing> = response.headers.get(Name::RECORD_ROUTE).unwrap_or_default();
+        route_set.reverse();
+
         let dialog = Dialog {
             endpoint: self.endpoint.clone(),
             dialog_layer: self.dialog_layer,
@@ -93,7 +97,7 @@ impl ClientDialogBuilder {
             local_contact: self.local_contact.clone(),
             peer_contact: response.headers.get_named()?,
             call_id: self.call_id.clone(),
-            route_set: response.headers.get(Name::RECORD_ROUTE).unwrap_or_default(),
+            route_set,
             secure: self.secure,
             target_tp_info: Mutex::new(self.target_tp_info.clone()),
         };
